@@ -82,8 +82,19 @@ pub fn judge(case: &Case) -> Verdict {
     };
     match what {
         "is_valid" => boolean("is_valid", valid, &|| h.is_valid()),
-        "is_corrupt" => boolean("is_corrupt", !all_cards, &|| h.is_corrupt()),
-        "contain_blank" => boolean("contain_blank", w.contains(&0), &|| h.contain_blank()),
+        // is_corrupt / contain_blank are helpers the statement names only through is_valid: they are judged where its
+        // wording leaves no choice (a hand of distinct real cards is not corrupt and contains no blank) and nowhere else
+        // (a refactoring may move the duplicate test from are_unique into is_corrupt, or count blanks as corrupt or not)
+        "is_corrupt" | "contain_blank" => {
+            if !valid {
+                return Verdict::NotJudged("the statement determines this helper on valid hands only".into());
+            }
+            if what == "is_corrupt" {
+                boolean("is_corrupt", false, &|| h.is_corrupt())
+            } else {
+                boolean("contain_blank", false, &|| h.contain_blank())
+            }
+        }
         "are_unique" => {
             if !all_cards {
                 return Verdict::NotJudged("are_unique is only determined by the statement on hands of real cards".into());
@@ -127,7 +138,10 @@ fn check_hand(acc: &mut Acc, w: &[u32], with_rank: bool) {
     let valid = all_cards && uniq;
     let r = guard(|| {
         let h = AnyHand::from_words(w);
-        let mut bad = h.is_valid() != valid || h.is_corrupt() == all_cards || h.contain_blank() != w.contains(&0);
+        let mut bad = h.is_valid() != valid;
+        if valid {
+            bad |= h.is_corrupt() || h.contain_blank();
+        }
         if all_cards {
             bad |= h.are_unique() != valid;
         }
@@ -518,6 +532,6 @@ pub fn run(ctx: &Ctx, rep: &mut Report) {
     } else {
         "2^32 words through the recogniser and one free slot of Two; all arrangements over a 12-word alphabet for sizes 2..7; the duplicate family".into()
     };
-    rep.assume("are_unique is judged only on hands of real cards (where the statement determines it); is_corrupt / contain_blank are judged by their documented definitions");
+    rep.assume("are_unique is judged only on hands of real cards (where the statement determines it); is_corrupt / contain_blank are judged on valid hands only (both false there); elsewhere the statement leaves them open");
     let _ = oracle();
 }
